@@ -1,6 +1,7 @@
 import Driver.Core
 import Driver.Pure
 import Driver.Vdb
+import Driver.Ledger
 /-
 One line per handler object. The first handler that understands a line answers it.
 -/
@@ -9,7 +10,8 @@ namespace ZV.Driver
 def registry : List Obj := [
   pureObj purePow,
   pureObj pureRpc,
-  vdbObj
+  vdbObj,
+  ledgerObj
 ]
 
 end ZV.Driver
